@@ -159,7 +159,7 @@ func (p *poller) deleteConn(c *Conn) {
 			// An asynchronous dial that never completed (refused, timed out,
 			// engine stopped): its outcome goes to the dial callback, exactly once;
 			// there was no open connection, so there is no close notification.
-			if h := c.takeOnConnected(); h != nil {
+			if h := c.takeOnConnected(true); h != nil {
 				err := c.closeErr
 				if err == nil {
 					err = net.ErrClosed
@@ -179,11 +179,15 @@ func (p *poller) deleteConn(c *Conn) {
 // poller and a concurrent close (dial timeout, Stop) cannot both report an outcome.
 //
 //go:norace
-func (c *Conn) takeOnConnected() func(c *Conn, err error) {
+func (c *Conn) takeOnConnected(closing bool) func(c *Conn, err error) {
 	c.mux.Lock()
+	defer c.mux.Unlock()
+	if c.closed && !closing {
+		// the connection is being closed: the closer reports the outcome.
+		return nil
+	}
 	h := c.onConnected
 	c.onConnected = nil
-	c.mux.Unlock()
 	return h
 }
 
@@ -326,7 +330,7 @@ func (p *poller) readWriteLoop() {
 								_ = c.closeWithError(err)
 								continue
 							}
-							if h := c.takeOnConnected(); h != nil {
+							if h := c.takeOnConnected(false); h != nil {
 								h(c, nil)
 								c.resetRead()
 							}
